@@ -1,5 +1,501 @@
 package stablelink
 
-import "testing"
+import (
+	"fmt"
+	"sort"
+	"strings"
+	"testing"
 
-func TestC15(t *testing.T) { t.Skip("under construction") }
+	"google.golang.org/protobuf/types/descriptorpb"
+
+	"github.com/bufbuild/protocompile"
+	"github.com/bufbuild/protocompile/internal/verifmon/gen"
+	"github.com/bufbuild/protocompile/internal/verifmon/vlib"
+	"github.com/bufbuild/protocompile/linker"
+)
+
+// C15 — relative name resolution follows protoc scoping.
+
+type siteKey struct {
+	Kind   string // type, extendee, method, optname, optname-part (2nd.. name part), literal-ext
+	Scope  string // scope argument of the renderer
+	Target string // fully-qualified target in the model
+	Elem   string // options message kind for option sites ("" = unknown)
+}
+
+func (k siteKey) siteClass() string {
+	if k.Elem != "" {
+		return k.Kind + " in " + k.Elem
+	}
+	return k.Kind
+}
+
+// c15Model is one compiled model.
+type c15Model struct {
+	files []*descriptorpb.FileDescriptorProto
+	types gen.TypeResolver
+	w     *world
+	src   map[string]string     // canonical sources
+	lfs   map[string]linker.File // baseline compile
+}
+
+func (m *c15Model) file(name string) *descriptorpb.FileDescriptorProto {
+	for _, f := range m.files {
+		if f.GetName() == name {
+			return f
+		}
+	}
+	return nil
+}
+
+// render renders one file. override (may be nil) respells the sites of one
+// key; calls receives every reference site in rendering order.
+func (m *c15Model) render(fd *descriptorpb.FileDescriptorProto, styleSeed uint64, override *siteKey, spelling string, calls *[]siteKey) (string, error) {
+	var curScope, curElem string
+	st := &gen.Style{}
+	if styleSeed != 0 {
+		st.Rng = vlib.NewRNG(styleSeed)
+	}
+	st.Ref = func(scope, target, kind string) string {
+		k := siteKey{Kind: kind, Scope: scope, Target: target}
+		switch kind {
+		case "optname":
+			ext := ""
+			for _, i := range m.w.byFQN[target] {
+				if m.w.elems[i].Kind == kExtension {
+					ext = m.w.elems[i].Extendee
+				}
+			}
+			if strings.HasPrefix(ext, "google.protobuf.") && strings.HasSuffix(ext, "Options") {
+				k.Elem = strings.TrimPrefix(ext, "google.protobuf.")
+				curScope, curElem = scope, k.Elem
+			} else {
+				k.Kind = "optname-part"
+				if curScope == scope {
+					k.Elem = curElem
+				}
+			}
+		case "literal-ext":
+			if curScope == scope {
+				k.Elem = curElem
+			}
+		}
+		if calls != nil {
+			*calls = append(*calls, k)
+		}
+		if override != nil && k == *override {
+			return spelling
+		}
+		return "." + target
+	}
+	return gen.Render(fd, m.types, st)
+}
+
+// compileVariant compiles file name from text; every other model file is the
+// already-linked descriptor of the baseline compile.
+func (m *c15Model) compileVariant(name, text string) *gen.Outcome {
+	res := protocompile.WithStandardImports(protocompile.ResolverFunc(func(p string) (protocompile.SearchResult, error) {
+		if p == name {
+			return protocompile.SearchResult{Source: strings.NewReader(text)}, nil
+		}
+		if lf, ok := m.lfs[p]; ok {
+			return protocompile.SearchResult{Desc: lf}, nil
+		}
+		return protocompile.SearchResult{}, fmt.Errorf("file not found: %s", p)
+	}))
+	return gen.CompileWith(res, []string{name}, gen.Opts{Par: 1})
+}
+
+func newC15Model(files []*descriptorpb.FileDescriptorProto, types gen.TypeResolver) (*c15Model, string) {
+	m := &c15Model{files: files, types: types, w: newWorld(files), src: map[string]string{}}
+	for _, f := range files {
+		s, err := gen.Render(f, types, nil)
+		if err != nil {
+			return nil, "render: " + err.Error()
+		}
+		m.src[f.GetName()] = s
+	}
+	var names []string
+	for _, f := range files {
+		names = append(names, f.GetName())
+	}
+	out := gen.Compile(m.src, names, gen.Opts{Par: 1})
+	if !out.OK() {
+		return nil, "baseline rejected: " + gen.ClassifyErr(out.ErrSummary())
+	}
+	m.lfs = allLinkerFiles(out.Files)
+	// the baseline must be the model (otherwise the model is not a decided case)
+	got := gen.Protos(out.Files)
+	for _, f := range files {
+		if d, err := gen.CompareNormalized(got[f.GetName()], f, types); err != nil || d != "" {
+			return nil, "baseline differs from model: " + gen.DiffClass(d)
+		}
+	}
+	return m, ""
+}
+
+// startScopes gives the candidate start scopes of a site.
+func (m *c15Model) startScopes(file string, k siteKey) []string {
+	switch k.Kind {
+	case siteType, siteExtendee, siteMethod:
+		return []string{k.Scope}
+	case "optname", "optname-part":
+		if k.Elem == "" {
+			return nil
+		}
+		return m.w.optionStartScopes(k.Elem, k.Scope)
+	case siteLiteral:
+		// A: the package of the file that uses the option (what the R3 cases
+		// failure_msg_literal_scoping_rules_limited* show: no message scopes);
+		// B: the scope enclosing the message the extension is set in (the extendee),
+		// which is what protoc's text-format finder starts from. The corpora do not
+		// separate A from B, so both are candidates.
+		pkg := m.w.files[file].GetPackage()
+		out := []string{pkg}
+		for _, i := range m.w.byFQN[k.Target] {
+			if m.w.elems[i].Kind == kExtension {
+				if p := parentOf(m.w.elems[i].Extendee); p != pkg {
+					out = append(out, p)
+				}
+			}
+		}
+		return out
+	}
+	return nil
+}
+
+func refSite(k siteKey) string {
+	switch k.Kind {
+	case "optname", "optname-part":
+		return siteOptName
+	}
+	return k.Kind
+}
+
+// spellings of a target: every suffix of its full name, with and without a
+// leading dot (message literals cannot carry a leading dot).
+func spellings(k siteKey) []string {
+	parts := strings.Split(k.Target, ".")
+	var out []string
+	for i := range parts {
+		s := strings.Join(parts[i:], ".")
+		out = append(out, s)
+		if k.Kind != siteLiteral {
+			out = append(out, "."+s)
+		}
+	}
+	return out
+}
+
+func spellingShape(k siteKey, sp string) string {
+	n := strings.Count(k.Target, ".") + 1
+	c := strings.Count(strings.TrimPrefix(sp, "."), ".") + 1
+	shape := "partial"
+	switch {
+	case c == n:
+		shape = "full"
+	case c == 1:
+		shape = "simple"
+	}
+	if strings.HasPrefix(sp, ".") {
+		shape += "+leading-dot"
+	}
+	return shape
+}
+
+// siteValues reads, from a compiled descriptor, the resolved names at every
+// position that belongs to key k in the model descriptor (parallel walk).
+func siteValues(model, got *descriptorpb.FileDescriptorProto, k siteKey) (vals []string, ok bool) {
+	ok = true
+	tgt := "." + k.Target
+	pkg := model.GetPackage()
+	fieldPos := func(mf, gf *descriptorpb.FieldDescriptorProto, syntax string) {
+		switch k.Kind {
+		case siteType:
+			if mf.GetTypeName() == tgt && !(syntax == "proto2" && mf.GetType() == descriptorpb.FieldDescriptorProto_TYPE_GROUP) {
+				vals = append(vals, gf.GetTypeName())
+			}
+		case siteExtendee:
+			if mf.GetExtendee() == tgt {
+				vals = append(vals, gf.GetExtendee())
+			}
+		}
+	}
+	syntax := "proto2"
+	if model.GetSyntax() != "" {
+		syntax = model.GetSyntax()
+	}
+	var msg func(scope string, mm, gm *descriptorpb.DescriptorProto)
+	msg = func(scope string, mm, gm *descriptorpb.DescriptorProto) {
+		fq := join(scope, mm.GetName())
+		if len(mm.Field) != len(gm.Field) || len(mm.NestedType) != len(gm.NestedType) || len(mm.Extension) != len(gm.Extension) {
+			ok = false
+			return
+		}
+		if fq == k.Scope {
+			for i := range mm.Field {
+				fieldPos(mm.Field[i], gm.Field[i], syntax)
+			}
+			for i := range mm.Extension {
+				fieldPos(mm.Extension[i], gm.Extension[i], syntax)
+			}
+			// value types of map fields are spelled in the enclosing message
+			for i, n := range mm.NestedType {
+				if n.GetOptions().GetMapEntry() && len(n.Field) == len(gm.NestedType[i].Field) {
+					for j := range n.Field {
+						fieldPos(n.Field[j], gm.NestedType[i].Field[j], syntax)
+					}
+				}
+			}
+		}
+		for i := range mm.NestedType {
+			msg(fq, mm.NestedType[i], gm.NestedType[i])
+		}
+	}
+	if len(model.MessageType) != len(got.MessageType) || len(model.Extension) != len(got.Extension) || len(model.Service) != len(got.Service) {
+		return nil, false
+	}
+	for i := range model.MessageType {
+		msg(pkg, model.MessageType[i], got.MessageType[i])
+	}
+	if k.Scope == pkg {
+		for i := range model.Extension {
+			fieldPos(model.Extension[i], got.Extension[i], syntax)
+		}
+	}
+	if k.Kind == siteMethod {
+		for i, s := range model.Service {
+			if join(pkg, s.GetName()) != k.Scope || len(s.Method) != len(got.Service[i].Method) {
+				continue
+			}
+			for j, mt := range s.Method {
+				if mt.GetInputType() == tgt {
+					vals = append(vals, got.Service[i].Method[j].GetInputType())
+				}
+				if mt.GetOutputType() == tgt {
+					vals = append(vals, got.Service[i].Method[j].GetOutputType())
+				}
+			}
+		}
+	}
+	return vals, ok
+}
+
+func isResolutionFailure(errs string) bool { return isResolutionErr(errs) }
+
+func TestC15(t *testing.T) {
+	r := vlib.Start(t, "C15")
+	defer r.Finish()
+	r.Extra("rule", "models: (a) scope-collision generator — 2-4 proto2 files in packages a, a.b, a.b.c, b, b.c, a.c or none, imports incl. public, every element kind (message, enum, enum value, field, oneof, extension, custom option declared at file level and inside messages, service, method) named from the pool {a,b,c,T,U,x}; custom options on every element kind, message-typed options with extensions of extensions; (b) gen.GenModel with Collide. "+
+		"For every reference site class of every file (field/map-value/extension type, extendee, method input/output, option name (first and later name parts) per element kind, extension name inside a message literal) and EVERY spelling (each suffix of the target's full name, with and without leading dot) the file is rendered with that spelling at exactly the sites of that class (gen.Style.Ref), compiled against the linked baseline of the other files, and compared with the reference resolver: "+
+		"same element ⇒ accepted and descriptor equal to the model; another element of an acceptable kind ⇒ if accepted, the compiled type_name/extendee/input_type/output_type at those sites is that element (options: descriptor differs from the model); failure (not found / first component found but remainder not defined / wrong kind) ⇒ rejected. "+
+		"A spelling is DECIDED only if the expectation is the same under every uncalibrated choice (enum/service aggregate-ness; start scope of field/oneof/extension-range options: message or enclosing scope; start scope of message-literal extension names: using file's package or scope enclosing the extendee; key/value first components in map value types); undecided spellings are only observed. "+
+		"one evaluation = one (model, file, site class, spelling); non-trivial = relative spelling (no leading dot) that is decided; distinct = (model sources, site, spelling)")
+	r.Extra("assumptions", []string{
+		"reference resolver ≡ protoc on the decided domain: calibrated at every run against the protoc-verified R3 verdicts (resolution cases) and the protoc-produced descriptors of R1/R2 (every type/extendee/method reference must resolve to protoc's recorded name); a disagreement makes the run inconclusive",
+		"the canonical (leading-dot) rendering of a model compiles to the model (checked per model; otherwise the model is skipped)",
+		"protoc is not available: rules that only its source code (as remembered) supports are toggles, never deciders",
+	})
+
+	// ---------- calibration ----------
+	if r.Mine(0) && r.Want("calibration") {
+		rep := calibrate()
+		recordCalibration(r, rep)
+		r.ClassN("calibration: R3 cases reproduced", int64(len(rep.R3Reproduced)))
+		r.ClassN("calibration: R1/R2 sites equal to protoc", int64(rep.R12Sites))
+	}
+
+	nScope := r.N(160, 3000)
+	nGen := r.N(40, 800)
+	maxSites := r.N(60, 200)
+	r.Par(nScope+nGen, func(i int) {
+		var id string
+		var files []*descriptorpb.FileDescriptorProto
+		var types gen.TypeResolver
+		if i < nScope {
+			id = fmt.Sprintf("s/%d", i)
+			if !r.Want(id) {
+				return
+			}
+			fs, ty, err := genScopeModel(r.Rng(id))
+			if err != nil {
+				r.Class("scope model refused by protodesc (not decided)")
+				return
+			}
+			files, types = fs, ty
+		} else {
+			id = fmt.Sprintf("g/%d", i-nScope)
+			if !r.Want(id) {
+				return
+			}
+			rng := r.Rng(id)
+			gm, err := gen.GenModel(rng, gen.Config{MaxFiles: 4, CustomOptions: i%2 == 0, Collide: true, Small: true, Syntaxes: []string{"proto2", "proto3", "editions"}})
+			if err != nil {
+				r.Class("gen model refused by protodesc (not decided)")
+				return
+			}
+			files, types = gm.Files, gm.Types
+		}
+		m, why := newC15Model(files, types)
+		if m == nil {
+			r.Class("model skipped: " + why)
+			return
+		}
+		r.Class("models explored")
+		srng := r.Rng(id + "/sites")
+		for fi, fd := range m.files {
+			fname := fd.GetName()
+			// half of the files are rendered with a random (but fixed) style, so that
+			// option paths with several name parts appear
+			var styleSeed uint64
+			if (i+fi)%2 == 1 {
+				styleSeed = vlib.Hash64(id+"/"+fname) | 1
+			}
+			var calls []siteKey
+			base, err := m.render(fd, styleSeed, nil, "", &calls)
+			if err != nil {
+				r.Inconclusive("render: " + err.Error())
+				continue
+			}
+			if styleSeed != 0 {
+				// the styled rendering must itself compile to the model
+				out := m.compileVariant(fname, base)
+				if !out.OK() {
+					r.Class("styled baseline rejected (file skipped; C01's concern)")
+					continue
+				}
+			}
+			seen := map[siteKey]bool{}
+			var keys []siteKey
+			for _, k := range calls {
+				if !seen[k] {
+					seen[k] = true
+					keys = append(keys, k)
+				}
+			}
+			if len(keys) > maxSites {
+				vlib.Shuffle(srng, keys)
+				keys = keys[:maxSites]
+			}
+			for _, k := range keys {
+				scopes := m.startScopes(fname, k)
+				for _, sp := range spellings(k) {
+					cid := fmt.Sprintf("%s/%s/%s@%s>%s/%s", id, fname, k.Kind, k.Scope, k.Target, sp)
+					if !r.Want(cid) {
+						continue
+					}
+					runC15Spelling(r, m, cid, fd, styleSeed, k, scopes, sp)
+				}
+			}
+		}
+		if i == 0 {
+			r.Sample("scope-collision model", m.src)
+		}
+	})
+}
+
+func runC15Spelling(r *vlib.Run, m *c15Model, cid string, fd *descriptorpb.FileDescriptorProto, styleSeed uint64, k siteKey, scopes []string, sp string) {
+	fname := fd.GetName()
+	var exp expectation
+	switch {
+	case len(scopes) == 0:
+		exp = expectation{What: expUndecided, Why: "option site whose element kind could not be identified"}
+	case k.Kind == siteType && (strings.HasPrefix(sp, "key.") || strings.HasPrefix(sp, "value.") || sp == "key" || sp == "value"):
+		exp = expectation{What: expUndecided, Why: "first component key/value (map entry scope) not calibrated"}
+	default:
+		exp = m.w.expect(fname, refSite(k), scopes, sp)
+	}
+	text, err := m.render(fd, styleSeed, &k, sp, nil)
+	if err != nil {
+		r.Inconclusive("render: " + err.Error())
+		return
+	}
+	out := m.compileVariant(fname, text)
+	shape := spellingShape(k, sp)
+	key := ""
+	if exp.What != expUndecided && !strings.HasPrefix(sp, ".") {
+		key = gen.SrcKey(m.src) + "\x00" + cid
+	}
+	r.Eval(key)
+	wit := func(extra map[string]any) map[string]any {
+		extra["file"] = fname
+		extra["site"] = k
+		extra["spelling"] = sp
+		extra["reference"] = exp
+		extra["start_scopes"] = scopes
+		extra["variant_source"] = text
+		extra["sources"] = m.src
+		extra["compile_errors"] = out.ErrSummary()
+		return extra
+	}
+	if out.Panic != nil {
+		r.Violation("compile.panic", "panic resolving a "+k.siteClass()+" reference", cid, wit(map[string]any{"panic": fmt.Sprint(out.Panic)}))
+		return
+	}
+	// observation
+	obs := "rejected"
+	var got *descriptorpb.FileDescriptorProto
+	if out.OK() {
+		got = gen.Protos(out.Files)[fname]
+		d, err := gen.CompareNormalized(got, fd, m.types)
+		switch {
+		case err != nil:
+			obs = "accepted, not comparable"
+		case d == "":
+			obs = "accepted, equal to model"
+		default:
+			obs = "accepted, differs from model"
+		}
+	}
+	if exp.What == expUndecided {
+		r.Class(fmt.Sprintf("undecided (%s) | %s | %s | observed: %s", exp.Why, k.siteClass(), shape, obs))
+		return
+	}
+	sigBase := k.siteClass() + ", " + shape + " spelling; reference rules: " + exp.Tags
+	switch exp.What {
+	case expFail:
+		r.Class("decided: must fail (" + strings.SplitN(exp.Why, ":", 2)[0] + ") | " + k.siteClass())
+		if out.OK() {
+			r.Violation("c15.resolves-where-protoc-fails", sigBase+"; protoc: "+exp.Why+"; here: "+obs, cid, wit(map[string]any{}))
+		} else if !isResolutionFailure(out.ErrSummary()) {
+			r.Class("must-fail spelling rejected with a non-resolution message (observed)")
+		}
+	case expResolves:
+		if exp.To == k.Target {
+			r.Class("decided: resolves to the model's target | " + k.siteClass())
+			switch {
+			case !out.OK():
+				r.Violation("c15.fails-where-protoc-resolves", sigBase+"; here: "+gen.ClassifyErr(out.ErrSummary()), cid, wit(map[string]any{}))
+			case obs != "accepted, equal to model":
+				d, _ := gen.CompareNormalized(got, fd, m.types)
+				r.Violation("c15.resolves-differently", sigBase+"; expected the model's target, descriptor differs at "+gen.DiffClass(d), cid, wit(map[string]any{"diff": d}))
+			}
+			return
+		}
+		r.Class("decided: resolves to ANOTHER element | " + k.siteClass())
+		switch {
+		case !out.OK() && isResolutionFailure(out.ErrSummary()):
+			r.Violation("c15.fails-where-protoc-resolves", sigBase+"; protoc resolves to another element of acceptable kind; here: "+gen.ClassifyErr(out.ErrSummary()), cid, wit(map[string]any{"expected_target": exp.To}))
+		case !out.OK():
+			r.Class("other-element spelling rejected downstream of resolution (observed)")
+		case obs == "accepted, equal to model":
+			r.Violation("c15.resolves-differently", sigBase+"; protoc resolves to another element, here the descriptor equals the model", cid, wit(map[string]any{"expected_target": exp.To}))
+		default:
+			if k.Kind == siteType || k.Kind == siteExtendee || k.Kind == siteMethod {
+				vals, ok := siteValues(fd, got, k)
+				if !ok || len(vals) == 0 {
+					r.Inconclusive("site positions not found in the compiled descriptor for " + k.siteClass())
+					return
+				}
+				for _, v := range vals {
+					if v != "."+exp.To {
+						r.Violation("c15.resolves-differently", sigBase+"; protoc resolves to another element, here to a third one", cid, wit(map[string]any{"expected_target": exp.To, "observed": vals}))
+						break
+					}
+				}
+			}
+		}
+	}
+}
+
+var _ = sort.Strings
